@@ -660,12 +660,8 @@ def replay(ck, path):
         print("\n".join(out))
         print(err[-800:])
         ck.evaluations = 1
-        ck.nontriv(1)
-        ck.nontriv(2)
         return
     exe = c07.harness() if any(l.startswith("cfg") for l in lines) else harness()
     res = runner.run_batch(exe, [("replay", lines)])
     print("\n".join(res["replay"]["out"]))
     ck.evaluations = 1
-    ck.nontriv(1)
-    ck.nontriv(2)
